@@ -143,3 +143,50 @@ Definition mon_segments : monitor_t := fun suite i o =>
 (** C20: the same scenario against differently loaded schemas gives identical observations *)
 Definition mon_dual : monitor_t := fun suite i o =>
   if name_is suite "dual.meta" then Some (all_equal (vl o)) else None.
+
+(** * C01 / C03 on the response body: envelopes well-formed, compressed flag and declared
+    compression agree with the bytes, messages are the backend's, in order. *)
+From VG Require Import Corr.MonReader Corr.CorrReader Model.Envelope Model.Stream.
+
+(** intent[12] = ids of the backend's messages as list of [ok; canonical id];
+    in[3] = oracle tables (index 5: decode with the client's codec, 6: unbounded gunzip) *)
+Definition resp_msg_id (ortab : V) (compressed : bool) (payload : bytes) : option bytes :=
+  let cdecode := tbl_fn (vl (vnth 5 ortab)) in
+  let gunzip := tbl_fn (vl (vnth 6 ortab)) in
+  let plain := if compressed && negb (Nat.eqb (length payload) 0) then gunzip payload else Some payload in
+  match plain with Some p => cdecode p | None => None end.
+
+Definition response_data_ok (i o : V) : bool :=
+  let it := intent_of (vnth 6 i) in
+  let f := i_form it in
+  let ortab := vnth 3 i in
+  let want := map (fun m => vs (vnth 1 m)) (filter (fun m => vb (vnth 0 m)) (vl (vnth 12 (vnth 6 i)))) in
+  let head := o_head o in
+  let data := o_data o in
+  let declared :=
+    if (f =? 3) || (f =? 4) then hget (s2b "Grpc-Encoding") head
+    else if f =? 2 then hget (s2b "Connect-Content-Encoding") head
+    else hget (s2b "Content-Encoding") head in
+  let has_comp := negb (Nat.eqb (length declared) 0) && negb (name_is declared "identity") in
+  let success := (outcome_code o =? 0) && i_wellformed it && negb (i_lenient it) && (i_kind it =? 0) in
+  if unary_form f then
+    (* the body is the message; a declared encoding applies to all of it *)
+    if outcome_code o =? 0 then
+      match resp_msg_id ortab has_comp data with
+      | Some id => negb success || match want with [w] => bytes_eqb id w | _ => false end
+      | None => negb (i_wellformed it) || i_lenient it   (* undecodable bytes only if the backend's were *)
+      end
+    else true
+  else
+    let '(frames, lft) := parse_frames (S (length data)) data in
+    let flags_ok := forallb (fun fr => ((fst fr =? 0) || (fst fr =? 1))%N && (negb (fst fr =? 1)%N || has_comp)) frames in
+    let ids := map (fun fr => resp_msg_id ortab (fst fr =? 1)%N (snd fr)) frames in
+    let decodable := (fix go (l : list (option bytes)) : list bytes := match l with Some b :: r => b :: go r | _ => [] end) ids in
+    (Nat.eqb (length lft) 0 || negb (i_wellformed it) || i_lenient it) &&
+    flags_ok &&
+    (i_lenient it || negb (i_wellformed it) ||
+     (forallb (fun x => match x with Some _ => true | None => false end) ids && is_prefix_ids decodable want)) &&
+    (negb success || Nat.eqb (length decodable) (length want)).
+
+Definition mon_response_data : monitor_t := fun suite i o =>
+  if name_is suite "serve.response" then Some (response_ok (intent_of (vnth 6 i)) o && response_data_ok i o) else None.
